@@ -68,7 +68,6 @@ _PURE_BUILTINS = {
     "sum": sum,
     "zip": lambda *a: list(zip(*a)),
     "enumerate": lambda *a: list(enumerate(*a)),
-    "map": None,
     "range": lambda *a: list(range(*a)),
     "reversed": lambda a: list(reversed(a)),
     "repr": repr,
@@ -76,6 +75,22 @@ _PURE_BUILTINS = {
     "all": all,
     "isinstance": None,
 }
+
+
+def _is_pure_callable(c):
+    """a callable the folder itself produced or a whitelisted str method / builtin: safe to apply to folded values"""
+    import functools
+    import operator
+
+    if isinstance(c, (operator.itemgetter, operator.attrgetter)):
+        return True
+    if isinstance(c, functools.partial):
+        return _is_pure_callable(c.func)
+    if getattr(c, "_pure", False):
+        return True
+    if c in (str, int, float, bool, len, repr, tuple, list, frozenset, set, sorted):
+        return True
+    return getattr(c, "__objclass__", None) is str and c.__name__ in _STR_METHODS
 
 
 def fold(node, env=None, resolver=None):
@@ -98,6 +113,9 @@ def fold(node, env=None, resolver=None):
             raise Unknown(n.id)
         if isinstance(n, ast.Attribute):
             ch = attr_chain(n)
+            # unbound methods of str used as first-class functions: str.partition, str.strip, ...
+            if ch is not None and len(ch) == 2 and ch[0] == "str" and ch[1] in _STR_METHODS and "str" not in env:
+                return getattr(str, ch[1])
             if ch is not None and resolver is not None and ch[0] not in env:
                 return resolver(ch)
             if n.attr in ("__getitem__", "get"):
@@ -304,6 +322,31 @@ def fold(node, env=None, resolver=None):
                     return ctor(*args, **kwargs)
                 except Exception as e:
                     raise Unknown(str(e))
+        # first-class pure callables of operator / functools / the repository's rpartial
+        if fname in ("itemgetter", "operator.itemgetter", "attrgetter", "operator.attrgetter") and args and not kwargs:
+            import operator
+
+            return getattr(operator, fname.rpartition(".")[2])(*args)
+        if fname in ("partial", "functools.partial") and args and callable(args[0]) and _is_pure_callable(args[0]):
+            import functools
+
+            return functools.partial(args[0], *args[1:], **kwargs)
+        if fname in ("rpartial", "cdd.shared.pure_utils.rpartial") and args and callable(args[0]) and _is_pure_callable(args[0]) and not kwargs:
+            fn0, late = args[0], tuple(args[1:])
+            rp = lambda *a, _f=fn0, _l=late: _f(*(a + _l))  # noqa: E731
+            rp._pure = True
+            return rp
+        if fname in ("map", "filter") and len(args) >= 2 and (args[0] is None or (callable(args[0]) and _is_pure_callable(args[0]))):
+            try:
+                if fname == "map":
+                    return list(map(args[0], *args[1:]))
+                return list(filter(args[0], args[1]))
+            except Exception as e:
+                raise Unknown(str(e))
+        if isinstance(fn, ast.Attribute) and fn.attr == "_asdict" and not args:
+            recv_ = f(fn.value)
+            if isinstance(recv_, tuple) and hasattr(recv_, "_fields"):
+                return dict(zip(recv_._fields, recv_))
         if fname in ("chain.from_iterable", "itertools.chain.from_iterable") and len(args) == 1:
             return [y for x in args[0] for y in x]
         if fname in ("chain", "itertools.chain"):
